@@ -44,6 +44,40 @@ def constituent(df_row, e, table_rows):
     return hits
 
 
+def naive_usage_bits(mapping, p):
+    """upper bound on what any lifetime analysis may report: for every root -> compute path of the LoopTree, the sum of the FULL tiles of the
+       storage nodes on it (per memory), maximised over the paths.  Dense projections T_i[m, n_i], W_i[n_i, n_(i+1)]."""
+    import c03
+    from accelforge.frontend.mapping.mapping import Loop
+    ranks = {"m": p["M"]}
+    for i, x in enumerate(p["ns"]):
+        ranks[f"n{i}"] = x
+    proj = {}
+    for i in range(p["n"] + 1):
+        proj[f"T{i}"] = ["m", f"n{i}"]
+    for i in range(p["n"]):
+        proj[f"W{i}"] = [f"n{i}", f"n{i + 1}"]
+    best = {}
+    for path in c03.tree_paths(mapping):
+        tile = dict(ranks)
+        tot = {}
+        for n in path:
+            if isinstance(n, Loop):
+                try:
+                    tile[str(n.rank_variable)] = int(n.tile_shape)
+                except Exception:  # noqa
+                    return None
+            elif type(n).__name__ in ("Storage", "Toll"):
+                for t in n.tensors:
+                    occ = 1
+                    for r in proj.get(str(t), []):
+                        occ *= tile[r]
+                    tot[str(n.component)] = tot.get(str(n.component), 0) + occ * p["bpv"]
+        for k, v in tot.items():
+            best[k] = max(best.get(k, 0), v)
+    return best
+
+
 def run(ck):
     common.setup_impl_path()
     import accelforge as af
@@ -61,6 +95,7 @@ def run(ck):
     cap = ck.n(120, 1500)
     for i in range(ck.n(9, 80)):
         p = JR.gen_spec(rng, allow_three=False)
+        p["gbpv"] = None
         if i % 3 == 0:
             p["n"], p["ns"] = 2, p["ns"][:3]
             p["long_lived"] = False
@@ -135,6 +170,21 @@ def run(ck):
                 bad = bad or ("objectives of a joined row are not the sums of its constituents", {"energy": ev, "sum_of_parts": esum, "latency": lv, "latency_sum": lsum})
             else:
                 dist["front_rows_reproduced"] += 1
+            # reported usage can never exceed the sum of the full tiles of the storage nodes on a path of the joined mapping
+            try:
+                nb = naive_usage_bits(JR.row_mapping(pm, row), p)
+            except Exception as ex:  # noqa
+                nb = None
+                dist["usage_bound_errors"] = dist.get("usage_bound_errors", 0) + 1
+                dist.setdefault("usage_bound_error_sample", f"{type(ex).__name__}: {str(ex)[:200]}")
+            if nb is not None and p["glb"] != "inf":
+                dist["usage_bound_checked"] = dist.get("usage_bound_checked", 0) + 1
+                for c in cols:
+                    if c.startswith("reservation<SEP>GlobalBuffer<SEP>"):
+                        rep = float(row[c]) * float(p["glb"])
+                        if rep > nb.get("GlobalBuffer", 0) * (1 + 1e-6) + 1e-6:
+                            bad = bad or ("the joined row reports more GlobalBuffer usage than the full tiles of all its storage nodes on any path add up to",
+                                          {"reported_bits": rep, "sum_of_full_tiles_bits": nb.get("GlobalBuffer", 0), "constituents": combo})
         # (b) no combination beats the front
         sizes = [len(sing[e]) for e in names]
         total = math.prod(sizes)
@@ -153,6 +203,21 @@ def run(ck):
                 continue
             nvalid += 1
             dist["valid_combinations"] += 1
+            if p["glb"] != "inf" and nvalid <= 60:
+                for q in range(len(df)):
+                    try:
+                        nb = naive_usage_bits(JR.row_mapping(pm, df.iloc[q]), p)
+                    except Exception:  # noqa
+                        nb = None
+                    if nb is None:
+                        continue
+                    dist["usage_bound_checked"] = dist.get("usage_bound_checked", 0) + 1
+                    for c in (cols or JR.obj_cols(df, True)):
+                        if c.startswith("reservation<SEP>GlobalBuffer<SEP>") and c in df.columns:
+                            rep = float(df[c].iloc[q]) * float(p["glb"])
+                            if rep > nb.get("GlobalBuffer", 0) * (1 + 1e-6) + 1e-6:
+                                bad = bad or ("a combination of single pmappings reports more GlobalBuffer usage than the full tiles of all its storage nodes on any path add up to",
+                                              {"reported_bits": rep, "sum_of_full_tiles_bits": nb.get("GlobalBuffer", 0), "combination": list(combo)})
             for w in JR.vectors(df, cols) if cols else [None]:
                 if full is None:
                     bad = bad or (f"the table join failed ({full_err}) although single pmappings combine", {"combination": list(combo)})
